@@ -15,7 +15,7 @@ from harness import c14_gen, c14_oracle
 from harness.common import g_N, g_Z, g_list, g_text, g_opt, g_pair, REPO
 
 PROPERTY = "C14"
-FEATURES = ("fnest", "glue", "xid", "fbrace", "escq", "bsbr", "blockish", "adjstr", "dotnum", "fquote", "fromname")
+FEATURES = ("fnest", "glue", "xid", "fbrace", "escq", "bsbr", "blockish", "adjstr", "dotnum", "fquote", "fromname", "kwdot")
 import re as _re
 _BLOCKISH = _re.compile(r"^\s*(def|class|if|elif|except|for|while|with|try|else|finally)\b")
 
@@ -133,6 +133,10 @@ def features(text, facts=None):
     if any(ty == T.NUMBER and s.startswith(".") for (ty, a, b, s, bd) in facts.plain):
         fs.add("dotnum")
     sig_toks = [t for t in facts.plain if t[0] not in (T.NL, T.COMMENT, T.NEWLINE, T.INDENT, T.DEDENT)]
+    import keyword as _kw
+    for t1, t2 in zip(sig_toks, sig_toks[1:]):
+        if t1[0] == T.NUMBER and t1[3].endswith(".") and t2[0] == T.NAME and _kw.iskeyword(t2[3]):
+            fs.add("kwdot")
     for t1, t2 in zip(sig_toks, sig_toks[1:]):
         if t1[0] == T.NAME and t1[3] != "from" and t1[3].endswith("from") and t2[0] == T.OP and t2[3] == ".":
             fs.add("fromname")
@@ -188,7 +192,7 @@ OBS_CLASS = {"regions": "lexing", "real_code": "lexing", "custom_generator": "lo
 
 
 # the structural features that can explain a failure of each observable class (others are ignored in signatures)
-# (glue, xid and fromname are features of FIXED defects: they are generated, but explain nothing any more)
+# (glue, xid, fromname and kwdot are features of FIXED defects: they are generated, but explain nothing any more)
 RELEVANT = {"lexing": {"fnest", "fbrace"}, "logical": {"escq", "adjstr"}, "llf": {"blockish"},
             "words": {"bsbr", "dotnum", "fquote"}, "lines": set(), "crash": set()}
 
@@ -240,6 +244,12 @@ def explains(feat, text, facts, fail):
     if feat == "dotnum":
         toks = [t for t in facts.plain if a <= t[1] < b and t[0] not in (T.NL, T.COMMENT)]
         return any(t2[0] == T.NUMBER and t2[3].startswith(".") and t1[0] == T.OP and t1[3] in "([{" for t1, t2 in zip(toks, toks[1:]))
+    if feat == "kwdot":
+        # the token right before the expected expression is a keyword that itself follows a float ending in its dot
+        import keyword as _kw
+        before = [t for t in facts.plain if t[2] <= a and t[0] not in (T.NL, T.COMMENT, T.NEWLINE, T.INDENT, T.DEDENT)]
+        return (len(before) >= 2 and before[-1][0] == T.NAME and _kw.iskeyword(before[-1][3])
+                and before[-2][0] == T.NUMBER and before[-2][3].endswith("."))
     if feat == "fquote":
         for (fa, fb, q, nested) in fstr:
             if a <= fa and fb <= b and not nested:
@@ -390,6 +400,7 @@ def case_term(text, obs, facts):
     alnum = sorted(ord(c) for c in chars if ord(c) >= 128 and c.isalnum())
     space = sorted(ord(c) for c in chars if ord(c) >= 128 and c.isspace())
     xid = sorted(ord(c) for c in chars if ord(c) >= 128 and ("a" + c).isidentifier())
+    digit = sorted(ord(c) for c in chars if ord(c) >= 128 and c.isdigit())
     ln = obs["lines"]
     qs = []
     for o in sorted(obs["queries"]):
@@ -407,10 +418,10 @@ def case_term(text, obs, facts):
             inside.update(range(a, b + 1))
         rng_ = list(facts.stmts) + [(i, i) for i, l in enumerate(facts.lines, 1) if i not in inside and l.strip().startswith("#")]
         tokl = g_list([g_pair(g_N(a), g_N(b)) for a, b in sorted(rng_)])
-    return ("{| c_text := %s; c_alnum := %s; c_space := %s; c_xid := %s; c_regions := %s; c_real := %s; c_nlines := %s;\n"
+    return ("{| c_text := %s; c_alnum := %s; c_space := %s; c_digit := %s; c_xid := %s; c_regions := %s; c_real := %s; c_nlines := %s;\n"
             "   c_linenos := %s; c_lstarts := %s; c_lends := %s; c_lines := %s; c_custom := %s; c_logical_in := %s;\n"
             "   c_queries := %s;\n   c_tok_regions := %s;\n   c_tok_logical := %s |}" % (
-                g_T(text), g_list([g_N(x) for x in alnum]), g_list([g_N(x) for x in space]), g_list([g_N(x) for x in xid]),
+                g_T(text), g_list([g_N(x) for x in alnum]), g_list([g_N(x) for x in space]), g_list([g_N(x) for x in digit]), g_list([g_N(x) for x in xid]),
                 g_list([g_region(r) for r in obs["regions"]]), g_T(obs["real"]), g_N(ln["length"]),
                 g_list([g_pair(g_N(x), g_N(k)) for x, k in rle(ln["linenos"])]), g_list([g_N(x) for x in ln["starts"]]),
                 g_list([g_N(x) for x in ln["ends"]]), g_list([g_T(x) for x in ln["get_line"]]),
@@ -523,6 +534,7 @@ FIXED = [
     "s = \"\"\"a\\\"\"\" \"\"\"\n", "s = 'a\\\\'\nt = 1\n", "x=\"\"\"a\"\"\"\"b\"\n", "(\n", ")\nx\n", "x = ')'\n", "'''\n", "f(\n'''\n)'''\n)\n", "x = 1 ;\n",
     "\x0cx = 1\n", "x = 1\n\x0c\ny = 2\n", "x = a . b\n", "x = a.\\\n  b\n", "lambda: (yield)\n",
     # a keyword right after a dot (rope 2b4039e: _follows_dot): valid shapes first, then the invalid ones it was made for
+    "y = b if 3. else (c).r\n", "y = 3. if c else (d).e\n", "a1.is\n", "\u0663x.is\n", "x = (a) .is\n", ".is\n",
     "from . import a\n", "from .. import b\n", "y = 1. if c else 2\n", "z = 2. or x\n", "s.is\n", "a.in.b\n", "x = s.is_x + t.import_y\n",
     "bfr\"x\"", "rbu'y' ", "bBfF\"z\"\n", "bbbbb\"x\"", "fRb'''a'''", "xRbU''", "uuuu'a' rrrrr'b'", "fb\"{x}\"\n", "Fx = rbf'{'\n",
 ]
@@ -683,4 +695,6 @@ def run(ctx):
     ctx.assumptions.append("texts contain no carriage return and no NUL (CRLF-free domain of the design)")
     ctx.assumptions.append("statements next to a physical line that holds nothing but a backslash are not compared for LogicalLineFinder; for "
                            "custom_generator such lines count as part of the statement they are joined to")
-    ctx.assumptions.append("a numeric literal immediately followed by a keyword (`1if x else 2`, deprecated since 3.12) is outside the generated domain")
+    ctx.assumptions.append("a numeric literal immediately followed by a name or keyword (`1if x else 2`, `3else`; deprecated since 3.12, "
+                           "SyntaxWarning today and a syntax error in future versions) is outside 'valid source text': c14_oracle.analyze rejects "
+                           "such texts, so generator, shrinker and oracle agree; they are still compared model-vs-rope in the malformed stream")
